@@ -252,6 +252,16 @@ func ruleWrap(p *core.Program) []core.Obligation {
 							}
 						}
 						okAll, why = false, "stored outside a carrier constructor"
+					case *ssa.Return:
+						// returned by a callback whose one caller wraps the result:
+						// newShardedOperator(func(shard, n int) model.VectorOperator { return scan.New...(...) })
+						if x.Parent() != nil && x.Parent().Parent() != nil && depth < 4 {
+							if _, c2 := callbackCall(p, x.Parent()); c2 != nil {
+								check(c2, depth+1)
+								continue
+							}
+						}
+						okAll, why = false, "returned to a caller that is not examined"
 					default:
 						okAll, why = false, fmt.Sprintf("used by %T", r)
 					}
